@@ -168,6 +168,17 @@ func (r *KeyRing) commitTX() {
 	r.txLog = nil
 }
 
+// rollbackPendingTX undoes applyPendingTX() when the resulting state could not be stored.
+// The transactions stay in the log, it is the caller who drops the ones that have failed.
+func (r *KeyRing) rollbackPendingTX() {
+	for i := len(r.txLog) - 1; i >= 0; i-- {
+		err := r.txLog[i].Rollback(r)
+		if err != nil {
+			r.log.WithError(err).Warn("failed to roll back update")
+		}
+	}
+}
+
 func (r *KeyRing) setCurrent(newSeqnum int) error {
 	oldSeqnum := r.data.Current
 	r.pushTX(&txSetKeyCurrent{oldSeqnum, newSeqnum})
